@@ -1795,7 +1795,8 @@ class Intel:
             return {"status": "rejected"}
         w = line.split()
         n, m, k = int(w[1]), int(w[2]), int(w[3])
-        return {"status": "ok", "n": n, "m": m, "divs": [F(int(w[4 + 2 * i]), int(w[5 + 2 * i])) for i in range(k)]}
+        return {"status": "ok", "n": n, "m": m, "divs": [F(int(w[4 + 3 * i]), int(w[5 + 3 * i])) for i in range(k)],
+                "phase_ps": [int(w[6 + 3 * i]) for i in range(k)]}
 
     def compare(self, c, real, model):
         if real["status"] != model["status"]:
@@ -1810,6 +1811,14 @@ class Intel:
             return "m/divides real=(%s,%s) model=(%s,%s)" % (real["m"], real["divs"], model["m"], model["divs"])
         if [(F(a), b) for a, b, _ in real["P"]] != [(dv, model["m"]) for dv in model["divs"]]:
             return "instance parameters real=%s" % (real["P"],)
+        # CLKn_PHASE_SHIFT = int(period_ps * phase / 360): float truncation may differ by one only when the exact value is
+        # within 1e-6 of an integer
+        for i, ((_, _, ps), mps) in enumerate(zip(real["P"], model["phase_ps"])):
+            f, p, _m = c["outs"][i]
+            exact = F(10 ** 12) * real["divs"][i] / (F(c["clkin"]) * real["m"]) * F(p) / 360
+            near_int = abs(exact - round(exact)) < F(1, 10 ** 6)
+            if ps != mps and not (near_int and abs(ps - mps) <= 1):
+                return "CLK%d_PHASE_SHIFT real=%s model=%s" % (i, ps, mps)
         return None
 
     def key(self, c, m, divs):
@@ -2016,11 +2025,13 @@ class Gw1n:
             return {"status": w[0]}
         k = int(w[6])
         pins = [int(x) for x in w[7:7 + k]]
+        assert w[7 + k] == "|"
+        mparams = tuple(int(x) for x in w[8 + k:12 + k])
         pinmap = {}
         for i, pn in enumerate(pins):
             pinmap[self.PINS[pn]] = i
         return {"status": "ok", "idiv": int(w[1]), "fdiv": int(w[2]), "odiv": int(w[3]), "sdiv": int(w[4]), "psda": int(w[5]),
-                "pinmap": pinmap}
+                "pinmap": pinmap, "params": mparams}
 
     def compare(self, c, real, model):
         if real["status"] != model["status"]:
@@ -2031,8 +2042,8 @@ class Gw1n:
             if real[k] != model[k]:
                 return "%s real=%s model=%s" % (k, real[k], model[k])
         P = real["P"]
-        if (P["IDIV_SEL"], P["FBDIV_SEL"], P["ODIV_SEL"], P["DYN_SDIV_SEL"], int(P["PSDA_SEL"], 2)) != \
-                (model["idiv"] - 1, model["fdiv"] - 1, model["odiv"], model["sdiv"], model["psda"]):
+        if (P["IDIV_SEL"], P["FBDIV_SEL"], P["ODIV_SEL"], P["DYN_SDIV_SEL"]) != model["params"] or \
+                int(P["PSDA_SEL"], 2) != model["psda"]:
             return "instance parameters real=%s" % (P,)
         return None
 
